@@ -251,6 +251,74 @@ def _shard(args):
             "samples": res.samples, "violations": res.violations, "errors": res.errors}
 
 
+def _shrink_worker(mod_name, tier, seed, bucket, out_path, max_examples):
+    """Hypothesis generate+shrink restricted to one bucket; writes the smallest failing spec found."""
+    import warnings
+    warnings.filterwarnings("ignore")
+    os.environ.setdefault("TQDM_DISABLE", "1")
+    mod = importlib.import_module(mod_name)
+    install_log_capture()
+    import hypothesis
+    from hypothesis import given, settings, HealthCheck, Phase
+    root = WORK / f"{mod.PID}_shrink_{os.getpid()}"
+    root.mkdir(parents=True, exist_ok=True)
+    best = {"size": None}
+    counter = [0]
+
+    class _Hit(Exception):
+        pass
+
+    @hypothesis.seed(seed * 1000 + 777)
+    @settings(max_examples=max_examples, database=None, deadline=None, derandomize=False,
+              report_multiple_bugs=False, suppress_health_check=list(HealthCheck),
+              phases=[Phase.generate, Phase.shrink])
+    @given(mod.strategy(tier))
+    def test(spec):
+        counter[0] += 1
+        res = ShardResult()
+        err = run_case(mod, spec, res, root, counter[0])
+        if err is not None and err.bucket == bucket:
+            size = len(canonical(spec))
+            if best["size"] is None or size < best["size"]:
+                best["size"] = size
+                Path(out_path).write_text(json.dumps({"bucket": bucket, "message": str(err), "spec": spec,
+                                                      "shrunk": True}, indent=1, default=str))
+            raise _Hit()
+
+    try:
+        test()
+    except BaseException:
+        pass
+    finally:
+        os.chdir(VERIF)
+        shutil.rmtree(root, ignore_errors=True)
+
+
+def shrink_bucket(mod_name, tier, seed, bucket, current_size, density, budget_s=150):
+    """Runs the shrinker in a child process under a wall-clock budget (the budget only bounds the
+    effort; running out of it keeps the smallest spec seen so far). Returns a smaller record or None."""
+    out_path = WORK / f"shrunk_{os.getpid()}_{abs(hash(bucket)) % 10**8}.json"
+    WORK.mkdir(exist_ok=True)
+    max_examples = int(min(20000, max(200, 6.0 / max(density, 1e-6))))
+    ctx = multiprocessing.get_context("fork")
+    proc = ctx.Process(target=_shrink_worker, args=(mod_name, tier, seed, bucket, str(out_path), max_examples))
+    proc.start()
+    proc.join(budget_s)
+    if proc.is_alive():
+        proc.terminate()
+        proc.join(5)
+    record = None
+    if out_path.exists():
+        try:
+            record = json.loads(out_path.read_text())
+        except Exception:
+            record = None
+        out_path.unlink()
+    if record and len(canonical(record["spec"])) < current_size:
+        return record
+    return None
+
+
 def load_known(pid):
     if not KNOWN_FILE.exists():
         return []
@@ -387,6 +455,20 @@ def run_property(mod_name, tier, seed, replay=None):
             n_known_hits += count
             continue
         violations_out.append((bucket, spec, msg, count))
+
+    # 5. shrink new violations with Hypothesis (thorough tier, or VERIF_SHRINK=1); bounded effort
+    if violations_out and hasattr(mod, "strategy") and (tier == "thorough" or os.environ.get("VERIF_SHRINK")):
+        shrunk = []
+        for bucket, spec, msg, count in violations_out[:4]:
+            if msg.startswith("regression") or bucket not in merged:
+                shrunk.append((bucket, spec, msg, count))
+                continue
+            rec = shrink_bucket(mod_name, tier, seed, bucket, len(canonical(spec)), count / max(evaluations, 1))
+            if rec:
+                shrunk.append((bucket, rec["spec"], rec["message"] + " [shrunk by Hypothesis]", count))
+            else:
+                shrunk.append((bucket, spec, msg, count))
+        violations_out = shrunk + violations_out[4:]
 
     rc = 0
     REPLAYS.joinpath(pid).mkdir(parents=True, exist_ok=True)
